@@ -21,7 +21,8 @@ static int R(void) { return round_ < 3 ? round_ : 2; }
 size_t scan_attr(const char *c) { return (IN.acc[R()] & 1) ? 1 : 0; }
 size_t scan_spnl(const char *c) { size_t p = IN.p[R()]; ASSUME(p <= rem(c)); return p; }
 size_t scan_key(const char *c) { size_t k = IN.k[R()]; ASSUME(k >= 1 && k < rem(c) && c[k] == '='); return k; }
-size_t scan_value(const char *c) { size_t v = IN.v[R()]; ASSUME(v >= 1 && v <= rem(c)); round_++; return v; }
+/* the value is non-empty where it starts (after the blanks that may follow '='); asked about such a blank, scan_value reports 0 (both by the lemma) */
+size_t scan_value(const char *c) { if (c[0] == ' ' || c[0] == '\t') { round_++; return 0; } size_t v = IN.v[R()]; ASSUME(v >= 1 && v <= rem(c)); round_++; return v; }
 int main(void) {
 	IN_LOAD();
 	size_t len = IN.len; ASSUME(len <= N);
